@@ -212,3 +212,15 @@ pub use crate::tcp::server::verif_tracker::VerifTracker;
 
 #[cfg(feature = "enable-tls")]
 pub use crate::tcp::tls::server::verif_role::extract_role_from_der;
+
+pub use crate::server::task::ServerCommand;
+
+impl VerifClient {
+    /// `ClientLoop::fail_requests`
+    pub async fn fail_requests(&mut self) -> WaitEnd {
+        match self.inner.fail_requests().await {
+            StateChange::Disable => WaitEnd::Disabled,
+            StateChange::Shutdown => WaitEnd::Shutdown,
+        }
+    }
+}
